@@ -234,6 +234,9 @@ def gen_chan(r):
     k = r.below(total + 2)
     recvs = [r.choice(["recv 0", "tryrecv 0"]) if i < total else "tryrecv 0" for i in range(k)]
     recvs.append("droprx 0")
+    if n == 2 and r.chance(1, 3):
+        # the only sender is dropped after its last send (messages may still be queued)
+        sends[0].append("droptx 0")
     if r.chance(1, 3):
         # the receiver lives in a spawned thread
         return render({"q": 1}, frame(sends[1:] + [recvs], sends[0], []))
